@@ -29,7 +29,22 @@ def _only_paintglyph_filter(fi: FuncInfo, call: ast.Call, rr: RuleResult, what: 
     extra = [f for f in facts if f not in allowed]
     has_filter = any(f in allowed and "PaintGlyph" in f[0] for f in facts)
     if not has_filter:
-        rr.bad(fi, call, f"{what}: contexts that are not PaintGlyph are not skipped", construct=f"{fi.name}: {short(call, 60)} without PaintGlyph filter")
+        # positive only when the call sits directly in a statement-level loop over breadth_first(): then every context reaches it
+        from ..model import parent_map as _pm3
+        pm_ = _pm3(fi.node)
+        x_ = call
+        direct = False
+        while x_ in pm_:
+            x_ = pm_[x_]
+            if isinstance(x_, ast.For):
+                direct = "breadth_first()" in norm(x_.iter)
+                break
+            if isinstance(x_, (ast.GeneratorExp, ast.ListComp, ast.SetComp, ast.DictComp, ast.Lambda)):
+                break
+        if direct:
+            rr.bad(fi, call, f"{what}: contexts that are not PaintGlyph are not skipped", construct=f"{fi.name}: {short(call, 60)} without PaintGlyph filter")
+        else:
+            rr.bad_shape(fi, call, f"{what}: contexts that are not PaintGlyph are not skipped", construct=f"{fi.name}: {short(call, 60)} without PaintGlyph filter")
     elif extra:
         rr.bad(fi, call, f"{what}: some PaintGlyph contexts are skipped under {extra}: their outline is missing from the output", construct=f"{fi.name}: {short(call, 60)} under {extra}")
     else:
@@ -306,15 +321,21 @@ def r05a(model: Model, rr: RuleResult):
     tpen = [c for c in calls_in(tg) if norm(c.func) == "TransformPen" and len(c.args) == 2]
     drawn = in_caller_terms(tg, tb[0], draws[0].func.value, tgcfg.node_for(draws[0])) if len(draws) == 1 else None
     applied = in_caller_terms(tg, tb[0], tpen[0].args[1], tgcfg.node_for(tpen[0])) if len(tpen) == 1 else None
-    if drawn is not None and applied is not None and norm(drawn) == "color_glyph.ufo[paint_glyph.glyph]" and norm(applied) == "context.transform":
+    from ..dataflow import resolved as _r5a
+    if drawn is not None:
+        drawn = _r5a(cfg, cfg.node_for(tb[0]), drawn)
+    if applied is not None:
+        applied = _r5a(cfg, cfg.node_for(tb[0]), applied)
+    DRAWN = ("color_glyph.ufo[paint_glyph.glyph]", "color_glyph.ufo[cast(PaintGlyph, context.paint).glyph]", "color_glyph.ufo[context.paint.glyph]")
+    if drawn is not None and applied is not None and norm(drawn) in DRAWN and norm(applied) == "context.transform":
         at = cfg.node_for(tb[0])
         defs = cfg.reaching(at, "paint_glyph")
-        if defs and all("context.paint" in norm(d.value) for d in defs):
+        if norm(drawn) != DRAWN[0] or (defs and all("context.paint" in norm(d.value) for d in defs)):
             rr.ok("bounds of paint_glyph.glyph under context.transform of the same context")
         else:
             rr.bad(fi, tb[0], "paint_glyph is not this context's paint", construct="_bounds: paint_glyph definition")
     elif drawn is not None and applied is not None and ((norm(applied) != "context.transform" and norm(applied).endswith("transform")) or
-                                                         (norm(drawn).startswith("color_glyph.ufo[") and norm(drawn) != "color_glyph.ufo[paint_glyph.glyph]")):
+                                                         (norm(drawn).startswith("color_glyph.ufo[") and norm(drawn) not in DRAWN)):
         rr.bad(fi, tb[0], "glyph bounds are not computed for this context's glyph under this context's transform", construct=short(tb[0]))
     else:
         rr.bad_shape(fi, tb[0], "glyph bounds are not computed for this context's glyph under this context's transform", construct=short(tb[0]))
@@ -322,7 +343,7 @@ def r05a(model: Model, rr: RuleResult):
     if outer:
         rr.ok("every root of painted_layers contributes")
     else:
-        rr.bad(fi, fi.node, "_bounds does not walk every painted layer root", construct="_bounds: root loop")
+        rr.bad_shape(fi, fi.node, "_bounds does not walk every painted layer root", construct="_bounds: root loop")
     un = find_calls(fi, "unionRect")
     ok = False
     if len(un) == 1 and [norm(a) for a in un[0].args] in (["bounds", "glyph_bbox"], ["glyph_bbox", "bounds"]):
